@@ -191,14 +191,46 @@ def specUnflatten (sep : Char) (inplace : Bool) (t : Entry) : Entry × Out :=
   | (t', .err e) => if inplace then (t', .err e) else (t, .err e)
   | (t', _) => if inplace then (t', .ok) else (t, .res [t'])
 
+/-! ### split_keys -/
+
+/-- one key set on plain dicts: `v = last.pop(p[, None]); out[p] = v` key by key (a missing key is skipped when not
+strict); stops at the first key that cannot be popped / written -/
+def specSplitSet (strict : Bool) : List Path → Entry → Entry → Entry × Entry × Except Err Unit
+  | [], last, out => (last, out, .ok ())
+  | p :: r, last, out =>
+    match specPop p (!strict) last with
+    | (last', .val (some v)) =>
+      match insert p v out with
+      | none => (last', out, .error .key)
+      | some out' => specSplitSet strict r last' out'
+    | (last', .val none) => specSplitSet strict r last' out
+    | (last', .err e) => (last', out, .error e)
+    | (last', _) => (last', out, .error .runtime)
+
+def specSplitSets (strict : Bool) : List (List Path) → Entry → List Entry → Entry × List Entry × Except Err Unit
+  | [], last, outs => (last, outs.reverse, .ok ())
+  | ks :: r, last, outs =>
+    match specSplitSet strict ks last (.node []) with
+    | (last', out, .ok ()) => specSplitSets strict r last' (out :: outs)
+    | (last', _, .error e) => (last', outs.reverse, .error e)
+
+/-- `split_keys(*key_sets)` on plain dicts: one fresh dict per key set filled with what was popped from the remainder,
+then the remainder without its empty dicts; nothing happens when a key cannot be moved -/
+def specSplit (sets : List (List Path)) (inplace strict : Bool) (t : Entry) : Entry × Out :=
+  match specSplitSets strict sets t [] with
+  | (_, _, .error e) => (t, .err e)
+  | (last, outs, .ok ()) =>
+    let last' := filterEmpty last
+    (if inplace then last' else t, .res (outs ++ [last']))
+
 /-! ### the reference step -/
 
 /-- the operations whose transcription is proved to refine the nested-dict replay (see Props/C04.lean);
-the remaining ones (select, split_keys) are tied to the
+the remaining one (select) is tied to the
 code by the correspondence check and judged by the Python dict oracle only. -/
 def Op.core : Op → Bool
   | .set .. | .del .. | .pop .. | .rename .. | .setdefault .. | .clear | .empty | .unflatten .. | .exclude .. | .update .. => true
-  | .flatten .. => true
+  | .flatten .. | .split .. => true
   | _ => false
 
 /-- replay of one operation on the plain nested dict (core operations) -/
@@ -220,6 +252,7 @@ def dstep (t : Entry) : Op → Entry × Out
   | .flatten sep inplace =>
     if (flatNames sep t).Nodup then (if inplace then (.node (flatKids sep t), .ok) else (t, .res [.node (flatKids sep t)]))
     else (t, .err .key)
+  | .split sets inplace strict => specSplit sets inplace strict t
   | _ => (t, .err .runtime)
 
 def drun (t : Entry) : List Op → Entry
@@ -239,6 +272,8 @@ def InScope (t : Entry) : Op → Prop
   | .update items => ∀ kv ∈ items, WF kv.2
   | .exclude keys _ => ∀ p ∈ keys, p ≠ []
   | .flatten .. => True
+  -- a key through a NonTensorData is outside the model (as for `pop` with a default)
+  | .split sets _ strict => strict = true ∨ ∀ ks ∈ sets, ∀ p ∈ ks, throughNt p t = false
   | _ => False
 
 def ScopeAll (t : Entry) : List Op → Prop
